@@ -431,3 +431,22 @@ def bufread_ops(e, c, a):
             if e.branch(e.binop("Eq", got[0], Int(8, 0, 10))):
                 return ok(usize(n))
     raise Unsupported(c)
+
+
+# ====================================================================== ZSTD: abstract lossless codec stub
+ZMAGIC = 0x28
+
+
+@model(r"^zstd::encode_all::<|^zstd::stream::encode_all::<|^encode_all::<&\[u8\]>$|^zstd::bulk::compress$")
+def zstd_encode_all(e, c, a):
+    """compress(x) = [magic] ++ x : lossless and never panics; real sizes are outside the model."""
+    l, lo, hi = e.seq_of(a[0])
+    return ok(VecObj([Int(8, 0, ZMAGIC)] + list(l[lo:hi])))
+
+
+@model(r"^zstd::decode_all::<|^zstd::stream::decode_all::<|^decode_all::<&\[u8\]>$")
+def zstd_decode_all(e, c, a):
+    l, lo, hi = e.seq_of(a[0])
+    if hi - lo < 1 or not e.branch(e.binop("Eq", l[lo], Int(8, 0, ZMAGIC))):
+        return err(io_err("zstd: not a frame"))
+    return ok(VecObj(list(l[lo + 1:hi])))
